@@ -188,7 +188,7 @@ pub fn explore(case : &Case, caps : &Caps, only : Option<(u32, Option<u32>)>, re
             let res = invoke(&world, true, None, case.rulefile_paths(), rsched);
             let after = world.snapshot().0;
             let rinv = Inv{ op_index : victim, is_build : true, goal : None, rules : rules.clone(), before : disk.clone(), after : after, res : res, model : m };
-            if let Some(s) = stats.as_deref_mut() { s.inc("evaluations"); s.inc("c11.recovery_builds"); }
+            if let Some(s) = stats.as_deref_mut() { s.inc("evaluations"); s.inc("c11.recovery_builds"); s.digest_str(&format!("{} {:?} {}", cp.index, torn, rinv.res.verdict.short())); }
             let expected_ok = match &rinv.model { Ok(m) => m.all_built() && m.missing_leaves.len() == 0, Err(_) => false };
             if !expected_ok { continue; }
             match &rinv.res.verdict
@@ -312,6 +312,6 @@ pub fn run_one(cfg : &Config, seed : u64, k : u64, stats : &mut Stats) -> Vec<Fo
             });
         }
     }
-    stats.inc("runs");
+    stats.end_run();
     found
 }
